@@ -84,6 +84,66 @@ CHECKS["C18"] = dict(
          "differential run.",
     technique="translator (Python ast -> Gallina) + Coq proofs re-checked against the regenerated model + exhaustive differential run",
     ref="DESIGN.md §3 C18")
+SOLVER_NOTE = ("Trusted: Coq kernel, harness (class synthesiser, recording Boolector proxy, generators), CPython, and Boolector as "
+               "executor of the call under test. Hand-written models tied per call by syntactic equality of the recorded solver terms "
+               "with the model's lowering. ")
+CHECKS["C01"] = dict(
+    text="Theorems (Coq, closed) about Gallina models of the expression/statement lowering (ExprBinModel.build/extend, literals, "
+         "unary, in, part-select, if/else-if/else, implies, unique, scopes, enum domains) and of the bit-vector API: on the typed "
+         "fragment the term built for an expression evaluates to its integer meaning (context-width propagation, "
+         "signed-iff-both-signed extension, signed/unsigned comparison and division), statement terms are true exactly when the "
+         "statement holds, and whatever model the solver returns for the hard terms, the values read back satisfy every hard "
+         "statement, lie in their types and enum fields hold declared values. Three corners outside the fragment are refuted with "
+         "witnesses. Tie per call: the multiset of hard terms handed to Boolector (recording proxy) equals the model's lowering of "
+         "the enabled statements; the returned values are judged by the integer semantics evaluated in Coq.",
+    note=SOLVER_NOTE + "Premise: a model returned by Boolector satisfies the asserted terms. Single objects and object trees over "
+         "scalar/enum fields; lists, foreach, dist, soft are the subject of C04, C15, C05.",
+    technique="Coq compiler-correctness proof of the lowering + per-call term-level correspondence and value oracle evaluated in Coq",
+    ref="DESIGN.md §3 C01")
+CHECKS["C02"] = dict(
+    text="Theorems (Coq, closed; the solver is a parameter with soundness / completeness premises): if some assignment of the "
+         "random fields satisfies every hard statement the modelled call never ends in SolveFailure, and whatever a call returns is "
+         "such an assignment; soft statements contribute no hard term. Tie per call: outcome class (returned / SolveFailure / other "
+         "exception) is compared with satisfiability decided independently of Boolector by enumerating every assignment of the "
+         "random fields under the integer semantics inside Coq (<= 2^13 assignments), plus the term-level correspondence of C01.",
+    note=SOLVER_NOTE + "Premises: Boolector sound and complete on the asserted terms. Systems with undefined operations "
+         "(division by zero) or outside the typed fragment get no verdict.",
+    technique="Coq proof (abstract sound+complete solver) + outcome vs. exhaustive enumeration of assignments evaluated in Coq",
+    ref="DESIGN.md §3 C02")
+CHECKS["C03"] = dict(
+    text="Theorems (Coq, closed): the code's used-rand marking equals the specification of 'random in this call' (root, or "
+         "declared random with rand_mode on and so every ancestor below the root); nothing below a non-random composite is random; "
+         "the read-back leaves every non-random field unchanged whatever the solver answers; a non-random field is presented to the "
+         "solver as the constant of its current value. Tie per call on object trees with rand_mode histories: leaves that changed, "
+         "leaves presented as variables / constants and the constants' values are compared with the model.",
+    note=SOLVER_NOTE + "Lists / mutable rangelists are exercised by C04.",
+    technique="Coq proof over object-tree model + per-call differential correspondence (frame, variable/constant flags, terms)",
+    ref="DESIGN.md §3 C03")
+CHECKS["C07"] = dict(
+    text="Theorems (Coq, closed): the statements enforced in a call are those of the blocks switched on of the composites that "
+         "are random in the call; toggling a block of one object leaves every tree not containing that object untouched and "
+         "changes neither random flags nor callbacks; of any toggle sequence only the last counts; switching back restores the "
+         "object. Tie: 2-3 instances of one class with constraint_mode / rand_mode histories; the hard terms and outcome of every "
+         "call are compared with the model's enabled blocks of that very instance.",
+    note=SOLVER_NOTE + "Procedural per-instance toggles; most-derived selection across inheritance is not generated here.",
+    technique="Coq proof over object-tree model + per-call term-level correspondence across several live instances",
+    ref="DESIGN.md §3 C07")
+CHECKS["C08"] = dict(
+    text="Theorems (Coq, closed): a sub-object's own blocks are enforced exactly when it is random in the call (and nothing "
+         "below a non-random composite is), and every leaf is flagged once under its own identity. Tie: class trees with sibling "
+         "sub-objects of one class and cross-level constraints by attribute path; every solver variable is mapped back to the field "
+         "object reached by that path and the terms are compared with the model's lowering over flat field identities.",
+    note=SOLVER_NOTE + "Objects stored in lists: C04.",
+    technique="Coq proof over object-tree model + per-call term-level correspondence with path-resolved field identities",
+    ref="DESIGN.md §3 C08")
+CHECKS["C17"] = dict(
+    text="Theorems (Coq, closed): the callbacks go to exactly the composites that are random in the call, in pre-order, each "
+         "once, and to nothing below a non-random composite. Tie: every class defines both callbacks, each invocation is logged "
+         "with the object's identity; the logged pre / post multisets of every call are compared with the model.",
+    note=SOLVER_NOTE + "Object trees (no object reachable by two attribute paths). 'Before the solve' is observed through the "
+         "values the callbacks see and the constants in the recorded terms.",
+    technique="Coq proof over object-tree model + per-call differential correspondence of callback logs",
+    ref="DESIGN.md §3 C17")
 NOT_YET = {}
 
 def main():
